@@ -897,6 +897,28 @@ func (g *G) multiDecl(depth int) []ts.Stmt {
 			return []ts.Stmt{d}
 		}
 	}
+	// n1, n2 := e, f(...) where f performs a multi-assignment (or multi-definition) itself: both statements hold values
+	// in compiler-owned temporaries at the same time - at top level and, above all, inside functions
+	if g.pure == 0 && g.chance("define-from-multi-assigner", 30) {
+		cands := []*funcInfo{}
+		for _, f := range g.funcs {
+			if f.MultiAssigns && f != g.cur && !f.Tracer && len(f.Rets) == 1 && !f.Rets[0].IsSlice() {
+				cands = append(cands, f)
+			}
+		}
+		if len(cands) > 0 {
+			f := cands[g.intn("dma-callee", 0, len(cands)-1)]
+			t1 := g.scalarType("dma-first-type")
+			n1 := g.freshName()
+			n2 := g.freshNameAvoid([]string{n1})
+			d := ts.VarDecl{Names: []string{n1, n2}, Ty: t1, Tys: []ts.Type{t1, f.Rets[0]}, Vals: []ts.Expr{g.expr(t1, 1), g.callExpr(f, 1)}, Form: ts.DeclShort}
+			g.defineVar(n1, t1, 0)
+			g.defineVar(n2, f.Rets[0], 0)
+			g.tag("multi-decl")
+			g.tag("multi-assign-calls-multi-assigner")
+			return []ts.Stmt{d, ts.Print{Args: []ts.Expr{ts.VarRef{Name: n1, Ty: t1}, ts.VarRef{Name: n2, Ty: f.Rets[0]}}}}
+		}
+	}
 	mf := g.multiFuncs()
 	if len(mf) > 0 && g.chance("decl-from-call", 50) {
 		f := mf[g.intn("mf", 0, len(mf)-1)]
@@ -1865,7 +1887,7 @@ func (g *G) funcDef() ts.Stmt {
 		}
 	}
 	n := g.intn("fbody", 1, 5)
-	maBefore := g.Tags["multi-assign"] + g.Tags["swap"] + g.Tags["multi-assign-inc-and-itoa"]
+	maBefore := g.Tags["multi-assign"] + g.Tags["swap"] + g.Tags["multi-assign-inc-and-itoa"] + g.Tags["multi-decl"]
 	for i := 0; i < n && g.budget > 0; i++ {
 		body = append(body, g.stmt(1)...)
 	}
@@ -1874,7 +1896,7 @@ func (g *G) funcDef() ts.Stmt {
 			body = append(body, st...)
 		}
 	}
-	fi.MultiAssigns = g.Tags["multi-assign"]+g.Tags["swap"]+g.Tags["multi-assign-inc-and-itoa"] > maBefore
+	fi.MultiAssigns = g.Tags["multi-assign"]+g.Tags["swap"]+g.Tags["multi-assign-inc-and-itoa"]+g.Tags["multi-decl"] > maBefore
 	if nr > 0 {
 		r := ts.Return{}
 		// several returned values that are DIRECTLY call results (return high(n), low(n)): every result must be saved
